@@ -339,6 +339,14 @@ where
         let mut next_token = self.next_token(input, context, &layout_parser)?;
         log!("{}: {:?}", "Token ahead".paint(LOG), &next_token);
 
+        // States entered by consecutive empty reductions. Empty reductions
+        // only push to the stack and the token ahead depends only on the
+        // current state and position, so entering the same state twice in
+        // such a run means that the parser would never stop.
+        // (`truncate(0)` is used below as `.clear()` would resolve to
+        // `yansi::Paint::clear`.)
+        let mut empty_reduction_states: Vec<S> = vec![];
+
         loop {
             // A lexer may return a token which is not expected in the current
             // state (e.g. a custom lexer that ignores the expected tokens). In
@@ -352,6 +360,7 @@ where
 
             match action {
                 Action::Shift(state_id) => {
+                    empty_reduction_states.truncate(0);
                     state = state_id;
                     let new_position = next_token.value.position_after(context.position());
                     context.set_span(SourceSpan {
@@ -393,6 +402,17 @@ where
                     context.set_span(span);
                     parse_stack.push_state(context, state);
                     log!("{} {:?} -> {:?}", "GOTO".paint(LOG), from_state, state);
+                    if prod_len == 0 {
+                        if empty_reduction_states.contains(&state) {
+                            err!(format!(
+                                "Endless empty reductions in state {state:?} by production \
+                                 '{prod:?}'. The grammar has a cyclic empty derivation."
+                            ))?
+                        }
+                        empty_reduction_states.push(state);
+                    } else {
+                        empty_reduction_states.truncate(0);
+                    }
                     builder.reduce_action(context, prod, prod_len);
                     context.set_span(context_span);
 
